@@ -158,13 +158,20 @@ theorem getDomainInto_spec (fuel : Nat) (p : P) (depth : Nat) (hp : p.buf = buf)
 
 theorem getDomain_spec (p : P) (hp : p.buf = buf) : Post (getDomain p) (fun r => Inv buf r.2) := by
   unfold getDomain
-  refine getDomainInto_spec _ p 1 hp (by omega) ?_
-  unfold M nameFuel
-  rw [hp]
-  have h1 : (Generated.Dns.pointerDepthLimit + 1 - 1) = Generated.Dns.pointerDepthLimit := by omega
-  rw [h1, Nat.mul_comm (buf.length + 2), Nat.add_mul]
-  generalize Generated.Dns.pointerDepthLimit * (buf.length + 2) = A
-  omega
+  have hinto : Post (getDomainInto (nameFuel p.buf) p 1) (fun r => Inv buf r.2) := by
+    refine getDomainInto_spec _ p 1 hp (by omega) ?_
+    unfold M nameFuel
+    rw [hp]
+    have h1 : (Generated.Dns.pointerDepthLimit + 1 - 1) = Generated.Dns.pointerDepthLimit := by omega
+    rw [h1, Nat.mul_comm (buf.length + 2), Nat.add_mul]
+    generalize Generated.Dns.pointerDepthLimit * (buf.length + 2) = A
+    omega
+  refine Post.bind hinto ?_
+  rintro ⟨d, p'⟩ hi
+  dsimp only
+  split
+  · trivial
+  · exact hi
 
 theorem ednsOptions_spec (fuel : Nat) (b : Bytes) (hb : IsBytes b) (hf : b.length < fuel) :
     Post (ednsOptions fuel b) (fun _ => True) := by
